@@ -120,7 +120,6 @@ package core
 // every dependency state observed since then was below DependencyFailed; woncas is the result of the last
 // compare-and-swap on the target's state.
 //@ assume func (BuildTarget).resolveDependencies
-//@ assume func (BuildTarget).WaitForBuild
 //@ assume func (BuildTarget).SyncUpdateState
 //@ assume func (BuildState).addPendingBuild
 //@ assume func (BuildState).queueTarget
@@ -130,6 +129,18 @@ package core
 //@ assume func (BuildState).LogBuildResult
 //@ assume func (BuildTarget).SetState
 //@ assume func (BuildTarget).FinishBuild
+//
+// Waiting (C04): waitOnChan returns only after a receive on the channel has completed — that is, after the
+// channel was closed (FinishBuild) or sent on; the "still waiting" timer only logs. WaitForBuild waits on the
+// target's own finishedBuilding channel.
+//@ func waitOnChan
+//@   opt nopanic=off
+//@   returnsite returns_only_after_the_channel_fired [C04]: received(ch)
+//@ func (BuildTarget).WaitForBuild
+//@   requires target != nil
+//@   opt nopanic=off
+//@   callsite waitOnChan on_the_targets_own_channel [C04]: arg_ch == target.finishedBuilding
+//@   returnsite waits [C04]: called("waitOnChan")
 //
 //@ func (BuildState).queueTargetAsync
 //@   requires state != nil && target != nil
@@ -401,6 +412,7 @@ package core
 // Executions of the same case (same name AND same class name) are merged; others are kept apart.
 //@ func findMatchingTestCase
 //@   requires testCase != nil && testCases != nil
+//@   modifies nothing
 //@   invariant "range *testCases" none: forall j int :: 0 <= j && j < idx ==> \
 //@      !(deref(testCases)[j].Name == testCase.Name && deref(testCases)[j].ClassName == testCase.ClassName)
 //@   ensures found [C26]: result >= 0 ==> result < len(deref(testCases)) && deref(testCases)[result].Name == testCase.Name && \
@@ -408,6 +420,26 @@ package core
 //@   ensures first [C26]: forall j int :: 0 <= j && (result < 0 || j < result) && j < len(deref(testCases)) ==> \
 //@      !(deref(testCases)[j].Name == testCase.Name && deref(testCases)[j].ClassName == testCase.ClassName)
 //@   ensures range [C26]: result >= -1
+//
+// Add (the per-name merge of flaky runs) and Collapse (concatenation of result files) never drop a case or an
+// execution: the cases already present stay where they are under their names, with their executions as a prefix
+// of what they hold afterwards, and a case that matches none of them is appended.
+//@ spec casesKept(now TestCases, before TestCases) bool = len(now) >= len(before) && \
+//@      (forall i int :: 0 <= i && i < len(before) ==> now[i].Name == before[i].Name && now[i].ClassName == before[i].ClassName && \
+//@         len(now[i].Executions) >= len(before[i].Executions))
+//@ func (TestSuite).Add
+//@   requires testSuite != nil
+//@   modifies testSuite
+//@   invariant "range cases" kept: casesKept(testSuite.TestCases, old(testSuite.TestCases)) && len(testSuite.TestCases) <= old(len(testSuite.TestCases)) + idx
+//@   ensures nothing_dropped [C26]: casesKept(testSuite.TestCases, old(testSuite.TestCases))
+//@   ensures at_most_one_case_each [C26]: len(testSuite.TestCases) <= old(len(testSuite.TestCases)) + len(cases)
+//@ func (TestSuite).Collapse
+//@   requires testSuite != nil
+//@   modifies testSuite testSuite.Properties
+//@   opt nopanic=off
+//@   ensures concatenation [C26]: len(testSuite.TestCases) == old(len(testSuite.TestCases)) + len(incoming.TestCases) && \
+//@      (forall i int :: 0 <= i && i < old(len(testSuite.TestCases)) ==> testSuite.TestCases[i] == old(testSuite.TestCases[i])) && \
+//@      (forall i int :: 0 <= i && i < len(incoming.TestCases) ==> testSuite.TestCases[old(len(testSuite.TestCases)) + i] == incoming.TestCases[i])
 //
 // Outcome counts: each counts the cases of its class (recursive count specifications).
 //@ spec isSkipped(c TestCase) bool = hasSkip(c.Executions)
@@ -644,6 +676,8 @@ package core
 //@ assume func (BuildLabel).IsHidden
 //@   pure
 //@ assume func (BuildInput).Label
+//@   pure
+//@ assume func (BuildInput).FullPaths
 //@   pure
 
 // HasSource (C24): a file counts as consumed when it is one of the target's sources OR one of its data files
